@@ -26,11 +26,12 @@ type c15Case struct {
 	Flag     bool     `json:"flag,omitempty"`  // delete -e / insert,infix -e / extract -v
 	Fasta    bool     `json:"fasta,omitempty"` // -F fasta
 	GuestLen int      `json:"guest_len,omitempty"`
-	Guests   int      `json:"guests,omitempty"` // insert, infix: this many further guest records follow the first in the guest stream
-	Pre      []int    `json:"pre,omitempty"`    // other records (c15Others) placed before the record in the stream ...
-	Post     []int    `json:"post,omitempty"`   // ... and after it: the stream's output must be the outputs of its records one by one
-	Sin      int      `json:"sin,omitempty"`    // standard input: 0 a pipe, 1 a regular file, 2 a regular file positioned behind a line the caller consumed
-	Twice    bool     `json:"twice,omitempty"`  // the input stream holds the record twice: both copies must be treated alike
+	Guests   int      `json:"guests,omitempty"`   // insert, infix: this many further guest records follow the first in the guest stream
+	Pre      []int    `json:"pre,omitempty"`      // other records (c15Others) placed before the record in the stream ...
+	Post     []int    `json:"post,omitempty"`     // ... and after it: the stream's output must be the outputs of its records one by one
+	Sin      int      `json:"sin,omitempty"`      // standard input: 0 a pipe, 1 a regular file, 2 a regular file positioned behind a line the caller consumed
+	InPlace  bool     `json:"in_place,omitempty"` // insert, infix: -o names the guest / host file itself (an update in place)
+	Twice    bool     `json:"twice,omitempty"`    // the input stream holds the record twice: both copies must be treated alike
 }
 
 type mRegion struct {
@@ -299,6 +300,9 @@ func c15Mixed(c c15Case, env cliEnv, what string, main []byte) *Violation {
 
 func c15Check(c c15Case) *Violation {
 	initPool()
+	if c.InPlace {
+		c.Twice = false // the in-place run bypasses the wrapper that compares the two halves of a doubled input
+	}
 	input := c15Record(c)
 	seqBytes := idBytes(0, c.L)
 	env := newCliEnv().withStdin(mod(c.Sin, 3))
@@ -439,14 +443,30 @@ func c15Check(c c15Case) *Violation {
 		}
 		var recs []outRec
 		var v *Violation
+		// in place: the output goes to the very file the guest (insert) or the host (infix) was read from
+		runIn := func(path string, stdin []byte) ([]outRec, *Violation) {
+			if !c.InPlace {
+				return run(c.argv(c.Locators[0], path), stdin)
+			}
+			res := env.run(c.argv("-o", path, c.Locators[0], path), stdin, false)
+			if res.Exit != 0 {
+				return nil, viol("exit-status", "%s with -o naming the file it reads: exit %d: %s", what, res.Exit, clipStr(res.Stderr, 300))
+			}
+			data, _ := os.ReadFile(path)
+			out, errText := parseOutput(data)
+			if errText != "" {
+				return nil, viol("output-unreadable", "%s with -o naming the file it reads: the file does not parse afterwards: %s", what, errText)
+			}
+			return out, nil
+		}
 		if c.Cmd == "insert" {
 			path := filepath.Join(env.dir, "guest.gb")
 			os.WriteFile(path, guestRec, 0o644)
-			recs, v = run(c.argv(c.Locators[0], path), input)
+			recs, v = runIn(path, input)
 		} else {
 			path := filepath.Join(env.dir, "host.gb")
 			os.WriteFile(path, input, 0o644)
-			recs, v = run(c.argv(c.Locators[0], path), guestRec)
+			recs, v = runIn(path, guestRec)
 		}
 		if v != nil {
 			return v
@@ -838,6 +858,9 @@ func c15Classify(c c15Case) (bool, []string) {
 	if c.Sin != 0 {
 		labels = append(labels, "stdin-regular-file")
 	}
+	if c.InPlace {
+		labels = append(labels, "in-place")
+	}
 	var regions []mRegion
 	for _, lt := range c.Locators {
 		rr, ok := resolveLocator(lt, c.L, c.Feats)
@@ -888,6 +911,7 @@ func c15Gen(t *rapid.T) c15Case {
 		GuestLen: drawCount(t, 1, 5, 300, "guestlen"), Twice: rapid.IntRange(0, 2).Draw(t, "twice") == 0}
 	if c.Cmd == "insert" || c.Cmd == "infix" {
 		c.Guests = rapid.SampledFrom([]int{0, 0, 1, 2, 3}).Draw(t, "guests")
+		c.InPlace = rapid.IntRange(0, 4).Draw(t, "inplace") == 0
 	}
 	c.Sin = rapid.SampledFrom([]int{0, 0, 0, 0, 1, 2}).Draw(t, "sin")
 	if rapid.IntRange(0, 3).Draw(t, "mixed") == 0 {
@@ -973,6 +997,9 @@ func TestC15(t *testing.T) {
 						return
 					}
 					if (cmd == "insert" || cmd == "infix") && !e.try(c15Case{Cmd: cmd, L: 56, Circ: circ, Feats: feats, Locators: []string{loc}, Flag: flag, GuestLen: 3, Guests: 2, Twice: circ == flag}) {
+						return
+					}
+					if (cmd == "insert" || cmd == "infix") && circ && !e.try(c15Case{Cmd: cmd, L: 56, Circ: circ, Feats: feats, Locators: []string{loc}, Flag: flag, GuestLen: 3, InPlace: true}) {
 						return
 					}
 				}
